@@ -21,3 +21,18 @@ package enterleavesensorpb
 //@   ensures [fresh-leave] old(evOf(value).LeaveTotal) == nil ==> fresh(evOf(value).LeaveTotal)
 //@   ensures [supplied-or-fresh] (evOf(value).EnterTotal == old(evOf(value).EnterTotal) || fresh(evOf(value).EnterTotal)) && (evOf(value).LeaveTotal == old(evOf(value).LeaveTotal) || fresh(evOf(value).LeaveTotal))
 //@   ensures [stored-kept] evOf(current).EnterTotal == old(evOf(current).EnterTotal) && evOf(current).LeaveTotal == old(evOf(current).LeaveTotal)
+//@
+//@ // C07: subscribing is a read.  The seed a subscriber starts from is the stored event itself (an unmasked read hands out
+//@ // the stored message), so the goroutine must blank occupant and direction on a COPY: what it sends for a seed is never
+//@ // the message it received, and for an update it is exactly that message, untouched.
+//@ property C07
+//@ func (*Model).PullEnterLeaveEvents$1()
+//@   option only step post inv
+//@   requires m != nil && send != nil && !chanClosed(send)
+//@   onrecv *ValueChange: recvd != nil && istype(recvd.Value, *traits.EnterLeaveEvent) && cast(recvd.Value, *traits.EnterLeaveEvent) != nil && allocated(cast(recvd.Value, *traits.EnterLeaveEvent))
+//@   onsend send [seed-is-a-copy]: change.LastSeedValue ==> sent.Value != cast(change.Value, *traits.EnterLeaveEvent) && sent.Value.Occupant == nil
+//@   onsend send [update-as-is]: !change.LastSeedValue ==> sent.Value == cast(change.Value, *traits.EnterLeaveEvent)
+//@   replay EnterLeaveSeedIntact()
+//@   modifies nothing
+//@   loop 0:
+//@     invariant !chanClosed(send)
